@@ -80,3 +80,12 @@ Proof.
   intros H. unfold summary; simpl. rewrite (sv_backed _ H). unfold genesis_pools_amount.
   apply genesis_pools_le. apply (sv_ok _ H).
 Qed.
+
+(* C18: withdrawal events add up to the coins paid (pools within their bounds, as C05 guarantees) *)
+Lemma withdraw_events_sum_ok now ps : Forall pool_ok ps ->
+  zsum (map snd (withdraw_events now ps)) = total_withdrawable now ps.
+Proof.
+  unfold total_withdrawable. intros H. induction H as [|p t Hp Ht IH]; simpl; [reflexivity|].
+  pose proof (withdrawable_nonneg now p Hp) as Hnn.
+  destruct (0 <? withdrawable now p) eqn:E; simpl; rewrite IH; lia.
+Qed.
